@@ -165,10 +165,22 @@ def run_case(desc):
         out.cls("3D")
 
     from vlib.case import dhash
-    pre = int(dhash(desc), 16) % 3      # a third of the cases each: fresh / material id first / parameter-less sets first
+    pre = int(dhash(desc), 16) % 4      # a quarter of the cases each: fresh / material id first / parameter-less sets first / re-used analyser, flag first
 
     def analyse():
         an = mk()
+        if pre == 3 and dim == "3D":
+            # the analyser first worked on another crystal (CsCl with Cl at the origin: a non-identity normalizer is selected), is
+            # handed this one through set_system() and is asked for the flag BEFORE anything else
+            from ase import Atoms
+            aux = Atoms("ClCs", scaled_positions=[[0, 0, 0], [0.5, 0.5, 0.5]], cell=[4.12] * 3, pbc=True)
+            an = SymmetryAnalyzer(aux, symmetry_tol=c.tol)
+            an.get_wyckoff_sets_conventional(True)
+            an.get_has_free_wyckoff_parameters()
+            an.set_system(at)
+            flag_first = an.get_has_free_wyckoff_parameters()
+            conv = an.get_conventional_system()
+            return an, conv, an.get_wyckoff_sets_conventional(True), flag_first
         if pre == 1:
             an.get_material_id()
         elif pre == 2:
@@ -188,5 +200,5 @@ def run_case(desc):
     if bool(hasfree) != bool(anyfree):
         out.fail("has-free-flag", "get_has_free_wyckoff_parameters() = %r but %s occupied set carries a parameter" % (hasfree, "some" if anyfree else "no"))
     out.nontrivial = bool(anyfree)
-    out.cls("free" if anyfree else "no-free", ["history:fresh", "history:material-id-first", "history:plain-sets-first"][pre])
+    out.cls("free" if anyfree else "no-free", ["history:fresh", "history:material-id-first", "history:plain-sets-first", "history:reused-analyser-flag-first" if dim == "3D" else "history:fresh"][pre])
     return out
